@@ -1,7 +1,8 @@
 #!/bin/bash
 # ./run_all.sh [quick|thorough]  -- every property, one line each; validates evidence files
 TIER="${1:-quick}"
-cd /verif
+cd "$(dirname "$0")"
+HERE="$(pwd)"
 rc_all=0
 for i in $(seq -w 1 18); do
   id="C$i"
@@ -12,12 +13,12 @@ for i in $(seq -w 1 18); do
   echo "$out" | grep -E "^(VIOLATION|KNOWN-FINDING)" | cut -c1-220
   [ $rc -ne 0 ] && rc_all=1
 done
-python3-vt - <<'PY'
-import json,jsonschema,glob
+HERE="$HERE" python3-vt - <<'PY'
+import json,jsonschema,glob,os
 sch=json.load(open('/root/.vp/EVIDENCE.schema.json'))
-for f in sorted(glob.glob('/verif/evidence/*.json')):
+for f in sorted(glob.glob(os.environ.get('HERE','/verif')+'/evidence/*.json')):
     try: jsonschema.validate(json.load(open(f)),sch)
     except Exception as e: print('INVALID',f,str(e)[:200])
-print('evidence files validated:',len(glob.glob('/verif/evidence/*.json')))
+print('evidence files validated:',len(glob.glob(os.environ.get('HERE','/verif')+'/evidence/*.json')))
 PY
 exit $rc_all
